@@ -174,6 +174,11 @@ func funcRange(v []data.Value) data.Value {
 	for index := init; index < limit; index += increment {
 		indices = append(indices, data.Int(index))
 		i++
+		// the next index would lie beyond the largest integer (and wrap around
+		// to the smallest one): this was the last element.
+		if index > math.MaxInt-increment {
+			break
+		}
 	}
 	return indices
 }
